@@ -124,6 +124,17 @@ let eqb b1 b2 =
 
 module Nat =
  struct
+  (** val eqb : nat -> nat -> bool **)
+
+  let rec eqb n0 m0 =
+    match n0 with
+    | O -> (match m0 with
+            | O -> true
+            | S _ -> false)
+    | S n' -> (match m0 with
+               | O -> false
+               | S m' -> eqb n' m')
+
   (** val leb : nat -> nat -> bool **)
 
   let rec leb n0 m0 =
@@ -3331,6 +3342,25 @@ let defs c =
                      | Some r -> r :: []
                      | None -> []) c
 
+(** val set_label_of : instr -> string list **)
+
+let set_label_of = function
+| ISetLabel l -> l :: []
+| _ -> []
+
+(** val set_labels : instr list -> string list **)
+
+let set_labels c =
+  flat_map set_label_of c
+
+(** val target_labels : instr -> string list **)
+
+let target_labels = function
+| IJumpTo l -> l :: []
+| IIfCondExpr (_, a, b) -> a :: (b :: [])
+| IIfCondLogic (a, b, _) -> a :: (b :: [])
+| _ -> []
+
 (** val increasing_from : n -> n list -> bool **)
 
 let rec increasing_from prev = function
@@ -3545,3 +3575,520 @@ let judged_C07 p =
       match ref_of_expr e with
       | Some t -> Nat.leb (S (S O)) (ttree_ops t)
       | None -> false) (flat_map lets_of_fn (functions_of p)))
+
+(** val decl_value : instr -> value option **)
+
+let decl_value = function
+| ILet (v, _) -> Some v
+| IFnArg (v, _, _) -> Some v
+| _ -> None
+
+(** val decl_values : instr list -> value list **)
+
+let decl_values c =
+  flat_map (fun i -> match decl_value i with
+                     | Some v -> v :: []
+                     | None -> []) c
+
+(** val decl_names : instr list -> string list **)
+
+let decl_names c =
+  map (fun v -> v.v_inner) (decl_values c)
+
+(** val read_values : instr -> value list **)
+
+let read_values = function
+| IExprValue (v, _) -> v :: []
+| IExprStruct (v, _, _) -> v :: []
+| IBind (v, _) -> v :: []
+| _ -> []
+
+(** val reads : instr list -> value list **)
+
+let reads c =
+  flat_map read_values c
+
+(** val value_eqb : value -> value -> bool **)
+
+let value_eqb a b =
+  (&&) ((&&) (eqb1 a.v_inner b.v_inner) (sem_ty_eqb a.v_ty b.v_ty))
+    (eqb a.v_mut b.v_mut)
+
+(** val nodup_strings : string list -> bool **)
+
+let rec nodup_strings = function
+| [] -> true
+| x :: l' -> (&&) (negb (smem x l')) (nodup_strings l')
+
+(** val chk_C12_root : block -> bool **)
+
+let chk_C12_root b =
+  (&&) (nodup_strings (decl_names b.b_ctx))
+    (forallb (fun v -> existsb (value_eqb v) (decl_values b.b_ctx))
+      (reads b.b_ctx))
+
+(** val chk_C12 : output -> bool **)
+
+let chk_C12 o =
+  forallb chk_C12_root o.o_fns
+
+type event =
+| EvLet
+| EvAssign
+| EvCall of string
+| EvRet
+
+type status =
+| Returned
+| OutOfOutcomes
+| OutOfFuel0
+| FellOff
+| BadLabel of string
+
+type trace = event list * status
+
+(** val event_eqb : event -> event -> bool **)
+
+let event_eqb a b =
+  match a with
+  | EvLet -> (match b with
+              | EvLet -> true
+              | _ -> false)
+  | EvAssign -> (match b with
+                 | EvAssign -> true
+                 | _ -> false)
+  | EvCall f -> (match b with
+                 | EvCall g -> eqb1 f g
+                 | _ -> false)
+  | EvRet -> (match b with
+              | EvRet -> true
+              | _ -> false)
+
+(** val events_eqb : event list -> event list -> bool **)
+
+let rec events_eqb a b =
+  match a with
+  | [] -> (match b with
+           | [] -> true
+           | _ :: _ -> false)
+  | x :: a' ->
+    (match b with
+     | [] -> false
+     | y :: b' -> (&&) (event_eqb x y) (events_eqb a' b'))
+
+(** val prefixb : event list -> event list -> bool **)
+
+let rec prefixb a b =
+  match a with
+  | [] -> true
+  | x :: a' ->
+    (match b with
+     | [] -> false
+     | y :: b' -> (&&) (event_eqb x y) (prefixb a' b'))
+
+(** val find_label : string -> instr list -> nat option **)
+
+let rec find_label l = function
+| [] -> None
+| i :: code' ->
+  if match i with
+     | ISetLabel l' -> eqb1 l l'
+     | _ -> false
+  then Some O
+  else (match find_label l code' with
+        | Some n0 -> Some (S n0)
+        | None -> None)
+
+type action =
+| Next of event list * nat * bool list
+| Halt of event list * status
+
+(** val goto : instr list -> string -> bool list -> action **)
+
+let goto code l w =
+  match find_label l code with
+  | Some pc -> Next ([], pc, w)
+  | None -> Halt ([], (BadLabel l))
+
+(** val branch : instr list -> string -> string -> bool list -> action **)
+
+let branch code lt lf = function
+| [] -> Halt ([], OutOfOutcomes)
+| b :: w' -> goto code (if b then lt else lf) w'
+
+(** val instr_step : instr list -> instr -> nat -> bool list -> action **)
+
+let instr_step code i pc w =
+  match i with
+  | ICall (f, _, _) -> Next (((EvCall f.f_name) :: []), (S pc), w)
+  | ILet (_, _) -> Next ((EvLet :: []), (S pc), w)
+  | IBind (_, _) -> Next ((EvAssign :: []), (S pc), w)
+  | IFnRet _ -> Halt ((EvRet :: []), Returned)
+  | IFnRetLabel _ -> Halt ((EvRet :: []), Returned)
+  | IJumpTo l -> goto code l w
+  | IIfCondExpr (_, lt, lf) -> branch code lt lf w
+  | IJumpFnRet _ -> Halt ((EvRet :: []), Returned)
+  | IIfCondLogic (lt, lf, _) -> branch code lt lf w
+  | _ -> Next ([], (S pc), w)
+
+(** val flat_step : instr list -> nat -> bool list -> action **)
+
+let flat_step code pc w =
+  match nth_error code pc with
+  | Some i -> instr_step code i pc w
+  | None -> Halt ([], FellOff)
+
+(** val prepend_trace : event list -> trace -> trace **)
+
+let prepend_trace ev t =
+  ((app ev (fst t)), (snd t))
+
+(** val flat_run : instr list -> nat -> nat -> bool list -> trace **)
+
+let rec flat_run code fuel pc w =
+  match fuel with
+  | O -> ([], OutOfFuel0)
+  | S fuel' ->
+    (match flat_step code pc w with
+     | Next (ev, pc', w') -> prepend_trace ev (flat_run code fuel' pc' w')
+     | Halt (ev, st) -> (ev, st))
+
+(** val flat_exec : instr list -> bool list -> nat -> trace **)
+
+let flat_exec code outcomes fuel =
+  flat_run code fuel O outcomes
+
+(** val expr_events : expr -> event list **)
+
+let rec expr_events = function
+| Expr (v, rest) ->
+  app (val_events v)
+    (let rec go = function
+     | [] -> []
+     | p :: l' -> let (_, v') = p in app (val_events v') (go l')
+     in go rest)
+
+(** val val_events : expr_val -> event list **)
+
+and val_events = function
+| EVCall (f, args) ->
+  app
+    (let rec go = function
+     | [] -> []
+     | a :: l' -> app (expr_events a) (go l')
+     in go args) ((EvCall f.iname) :: [])
+| EVSub e -> expr_events e
+| _ -> []
+
+(** val exprs_events : expr list -> event list **)
+
+let exprs_events l =
+  flat_map expr_events l
+
+(** val lcond_events : lcond -> event list **)
+
+let rec lcond_events = function
+| LC (l, _, r, next) ->
+  app (expr_events l)
+    (app (expr_events r)
+      (match next with
+       | Some p -> let (_, c') = p in lcond_events c'
+       | None -> []))
+
+(** val cond_events : cond -> event list **)
+
+let cond_events = function
+| CSingle e -> expr_events e
+| CLogic l -> lcond_events l
+
+type completion =
+| Normal
+| Brk
+| Cont
+| JumpOuterEnd
+| Stop of status
+
+type sres = (event list * completion) * bool list
+
+(** val prepend : event list -> sres -> sres **)
+
+let prepend ev = function
+| (p, w) -> let (ev', c) = p in (((app ev ev'), c), w)
+
+(** val seq0 : sres -> (bool list -> sres) -> sres **)
+
+let seq0 r k =
+  let (p, w) = r in
+  let (ev, c) = p in (match c with
+                      | Normal -> prepend ev (k w)
+                      | _ -> r)
+
+(** val ifbody_stmts : ifbody -> stmt list **)
+
+let ifbody_stmts = function
+| IBIf ss -> ss
+| IBLoop ss -> ss
+
+(** val if_exit : bool -> bool -> sres -> sres **)
+
+let if_exit quirk in_if = function
+| (p, w) ->
+  let (ev, c) = p in
+  ((ev,
+  (match c with
+   | Normal -> if (&&) quirk in_if then JumpOuterEnd else Normal
+   | JumpOuterEnd -> if in_if then JumpOuterEnd else Normal
+   | _ -> c)), w)
+
+(** val loop_exit : sres -> (bool list -> sres) -> sres **)
+
+let loop_exit r again =
+  let (p, w) = r in
+  let (ev, c) = p in
+  (match c with
+   | Normal -> prepend ev (again w)
+   | Brk -> ((ev, Normal), w)
+   | Cont -> prepend ev (again w)
+   | _ -> r)
+
+(** val out_of_fuel_res : bool list -> sres **)
+
+let out_of_fuel_res w =
+  (([], (Stop OutOfFuel0)), w)
+
+(** val exec_stmts : bool -> nat -> bool -> stmt list -> bool list -> sres **)
+
+let exec_stmts quirk =
+  let rec exec_stmt n0 in_if s w =
+    match n0 with
+    | O -> out_of_fuel_res w
+    | S n' ->
+      (match s with
+       | SLet (_, _, _, e) ->
+         (((app (expr_events e) (EvLet :: [])), Normal), w)
+       | SBind (_, e) -> (((app (expr_events e) (EvAssign :: [])), Normal), w)
+       | SCall (f, args) ->
+         (((app (exprs_events args) ((EvCall f.iname) :: [])), Normal), w)
+       | SIf i -> if_exit quirk in_if (exec_if n' i w)
+       | SLoop body -> exec_loop n' body w
+       | SRet e -> (((app (expr_events e) (EvRet :: [])), (Stop Returned)), w)
+       | SExprStmt e ->
+         (((app (expr_events e) (EvRet :: [])), (Stop Returned)), w)
+       | SBreak -> (([], Brk), w)
+       | SContinue -> (([], Cont), w))
+  and exec_stmts0 n0 in_if ss w =
+    match ss with
+    | [] -> (([], Normal), w)
+    | s :: ss' ->
+      (match n0 with
+       | O -> out_of_fuel_res w
+       | S n' -> seq0 (exec_stmt n' in_if s w) (exec_stmts0 n' in_if ss'))
+  and exec_if n0 i w =
+    match n0 with
+    | O -> out_of_fuel_res w
+    | S n' ->
+      let IfS (c, body, els, elif) = i in
+      (match w with
+       | [] -> (((cond_events c), (Stop OutOfOutcomes)), [])
+       | b :: w' ->
+         prepend (cond_events c)
+           (if b
+            then exec_stmts0 n' true (ifbody_stmts body) w'
+            else (match els with
+                  | Some eb -> exec_stmts0 n' true (ifbody_stmts eb) w'
+                  | None ->
+                    (match elif with
+                     | Some ei -> exec_if n' ei w'
+                     | None -> (([], Normal), w')))))
+  and exec_loop n0 body w =
+    match n0 with
+    | O -> out_of_fuel_res w
+    | S n' -> loop_exit (exec_stmts0 n' false body w) (exec_loop n' body)
+  in exec_stmts0
+
+(** val finish : sres -> trace **)
+
+let finish = function
+| (p, _) ->
+  let (ev, c) = p in (match c with
+                      | Stop st -> (ev, st)
+                      | _ -> (ev, FellOff))
+
+(** val struct_exec : bool -> stmt list -> bool list -> nat -> trace **)
+
+let struct_exec quirk body outcomes fuel =
+  finish (exec_stmts quirk fuel false body outcomes)
+
+(** val agree : trace -> trace -> bool **)
+
+let agree t1 t2 =
+  match snd t1 with
+  | Returned ->
+    (match snd t2 with
+     | Returned -> events_eqb (fst t1) (fst t2)
+     | _ -> (||) (prefixb (fst t1) (fst t2)) (prefixb (fst t2) (fst t1)))
+  | _ -> (||) (prefixb (fst t1) (fst t2)) (prefixb (fst t2) (fst t1))
+
+(** val flat_ok : status -> bool **)
+
+let flat_ok = function
+| FellOff -> false
+| BadLabel _ -> false
+| _ -> true
+
+(** val all_outcomes : nat -> bool list list **)
+
+let rec all_outcomes = function
+| O -> [] :: []
+| S k' ->
+  app (map (fun x -> true :: x) (all_outcomes k'))
+    (map (fun x -> false :: x) (all_outcomes k'))
+
+(** val forallb2 : ('a1 -> 'a2 -> bool) -> 'a1 list -> 'a2 list -> bool **)
+
+let rec forallb2 f la lb =
+  match la with
+  | [] -> (match lb with
+           | [] -> true
+           | _ :: _ -> false)
+  | a :: la' ->
+    (match lb with
+     | [] -> false
+     | b :: lb' -> (&&) (f a b) (forallb2 f la' lb'))
+
+(** val chk_C05_word :
+    bool -> nat -> fn_decl -> block -> bool list -> bool **)
+
+let chk_C05_word quirk fuel f root w =
+  let tf = flat_exec root.b_ctx w fuel in
+  let ts = struct_exec quirk f.fn_body w fuel in
+  (&&) ((&&) (flat_ok (snd tf)) (flat_ok (snd ts))) (agree tf ts)
+
+(** val chk_C05_fn : bool -> nat -> nat -> fn_decl -> block -> bool **)
+
+let chk_C05_fn quirk k fuel f root =
+  forallb (chk_C05_word quirk fuel f root) (all_outcomes k)
+
+(** val chk_C05 : bool -> nat -> nat -> program -> output -> bool **)
+
+let chk_C05 quirk k fuel p o =
+  forallb2 (chk_C05_fn quirk k fuel) (functions_of p) o.o_fns
+
+(** val nodupb : string list -> bool **)
+
+let rec nodupb = function
+| [] -> true
+| x :: l' -> (&&) (negb (smem x l')) (nodupb l')
+
+(** val chk_C10_unique_root : block -> bool **)
+
+let chk_C10_unique_root root =
+  nodupb (set_labels root.b_ctx)
+
+(** val chk_C10_unique : output -> bool **)
+
+let chk_C10_unique o =
+  forallb chk_C10_unique_root o.o_fns
+
+(** val chk_C10_resolve_root : block -> bool **)
+
+let chk_C10_resolve_root root =
+  forallb (fun i ->
+    forallb (fun l -> smem l (set_labels root.b_ctx)) (target_labels i))
+    root.b_ctx
+
+(** val chk_C10_resolve : output -> bool **)
+
+let chk_C10_resolve o =
+  forallb chk_C10_resolve_root o.o_fns
+
+(** val is_fn_ret : instr -> bool **)
+
+let is_fn_ret = function
+| IFnRet _ -> true
+| IFnRetLabel _ -> true
+| _ -> false
+
+(** val is_fn_ret_label : instr -> bool **)
+
+let is_fn_ret_label = function
+| IFnRetLabel _ -> true
+| _ -> false
+
+(** val is_jump_fn_ret : instr -> bool **)
+
+let is_jump_fn_ret = function
+| IJumpFnRet _ -> true
+| _ -> false
+
+(** val count_instr : (instr -> bool) -> instr list -> nat **)
+
+let count_instr f c =
+  length (filter f c)
+
+(** val rets_stmt : stmt -> nat **)
+
+let rec rets_stmt = function
+| SIf i -> rets_if i
+| SLoop body ->
+  let rec go = function
+  | [] -> O
+  | s' :: l' -> add (rets_stmt s') (go l')
+  in go body
+| SRet _ -> S O
+| _ -> O
+
+(** val rets_if : ifstmt -> nat **)
+
+and rets_if = function
+| IfS (_, body, els, elif) ->
+  add
+    (add (rets_ifbody body)
+      (match els with
+       | Some b -> rets_ifbody b
+       | None -> O)) (match elif with
+                      | Some i' -> rets_if i'
+                      | None -> O)
+
+(** val rets_ifbody : ifbody -> nat **)
+
+and rets_ifbody = function
+| IBIf ss ->
+  let rec go = function
+  | [] -> O
+  | s' :: l' -> add (rets_stmt s') (go l')
+  in go ss
+| IBLoop ss ->
+  let rec go = function
+  | [] -> O
+  | s' :: l' -> add (rets_stmt s') (go l')
+  in go ss
+
+(** val nested_rets_stmt : stmt -> nat **)
+
+let nested_rets_stmt s = match s with
+| SRet _ -> O
+| SExprStmt _ -> O
+| _ -> rets_stmt s
+
+(** val nested_rets : stmt list -> nat **)
+
+let nested_rets body =
+  fold_right (fun s n0 -> add (nested_rets_stmt s) n0) O body
+
+(** val chk_C11_fn : fn_decl -> block -> bool **)
+
+let chk_C11_fn f root =
+  match rev0 root.b_ctx with
+  | [] -> false
+  | last :: before ->
+    (&&)
+      ((&&) ((&&) (is_fn_ret last) (negb (existsb is_fn_ret before)))
+        (eqb (is_fn_ret_label last) (existsb is_jump_fn_ret before)))
+      (Nat.eqb (count_instr is_jump_fn_ret root.b_ctx)
+        (nested_rets f.fn_body))
+
+(** val chk_C11 : program -> output -> bool **)
+
+let chk_C11 p o =
+  forallb2 chk_C11_fn (functions_of p) o.o_fns
